@@ -44,6 +44,7 @@ structure St where
   specChecked : Nat := 0
   specDiffs : List String := []
   refs : Std.HashMap String RefSt := {}
+  parMul : Nat := 1                                -- inside `par k`: each command of the body runs k times
   digests : Std.HashMap String String := {}      -- reference content digest per merge output name
   vcaches : Std.HashMap String VCache := {}
   handles : Std.HashMap String (String × Name × Option (List Nat) × Bool × Bool) := {}   -- seg, field, except, filtering, has index
@@ -427,6 +428,8 @@ def commandObs (st : St) (c : Cmd) : St × Verdict :=
       | .inl s => .exact s
       | .inr (p, d) => .pred p d)
   | "poolprobe" => (st, .exact "doubled=0")
+  | "par" => ({ st with parMul := (c.arg 0).toNat?.getD 4 }, .none)
+  | "endpar" => ({ st with parMul := 1 }, .none)
   | "ref" =>
     let name := c.arg 1
     match st.refs.get? name with
@@ -437,9 +440,9 @@ def commandObs (st : St) (c : Cmd) : St × Verdict :=
         | _ => .exact "ok")
     | some r =>
       match c.arg 0 with
-      | "addref" => ({ st with refs := st.refs.insert name (r.step .addRef) }, .exact "ok")
-      | "decref" => ({ st with refs := st.refs.insert name (r.step .decRef) }, .exact "ok")
-      | "close" => ({ st with refs := st.refs.insert name (r.step .close) }, .exact "ok")
+      | "addref" => ({ st with refs := st.refs.insert name (iterN (fun x => x.step .addRef) st.parMul r) }, .exact "ok")
+      | "decref" => ({ st with refs := st.refs.insert name (iterN (fun x => x.step .decRef) st.parMul r) }, .exact "ok")
+      | "close" => ({ st with refs := st.refs.insert name (iterN (fun x => x.step .close) st.parMul r) }, .exact "ok")
       | "refs" => (st, .exact s!"refs={r.refs}")
       | "mapped" =>
         if r.releases = 0 then
